@@ -73,9 +73,7 @@ Qed.
 Lemma short_step_agree : forall j o fs, agree_except (op_path o) fs (fst (short_step j o fs)).
 Proof.
   intros j o fs. destruct o; try (cbn; apply agree_refl).
-  unfold short_step. destruct (Nat.ltb j (length b)).
-  - destruct (fs p); cbn [fst op_path]; [apply agree_upd|apply agree_refl].
-  - apply (step_agree (OWrite p off b)).
+  unfold short_step. destruct (fs p); cbn [fst op_path]; [apply agree_upd|apply agree_refl].
 Qed.
 
 Lemma only_paths_run_f : forall A S (p : prog A), only_paths S p ->
@@ -96,3 +94,975 @@ Proof.
     + destruct (step o fs) as [fs' r]. rewrite IH by exact Nq. exact Hs.
     + destruct (step o fs) as [fs' r]. rewrite IH by exact Nq. exact Hs.
 Qed.
+
+(* ---- prefixes *)
+Lemma prefix_refl : forall d, is_prefix d d.
+Proof. intros d. exists []. symmetry; apply app_nil_r. Qed.
+
+Lemma prefix_nil : forall d, is_prefix [] d.
+Proof. intros d. exists d. reflexivity. Qed.
+
+Lemma prefix_length : forall c d, is_prefix c d -> (length c <= length d)%nat.
+Proof. intros c d [t ->]. rewrite app_length. lia. Qed.
+
+Lemma prefix_firstn : forall c d, is_prefix c d -> c = firstn (length c) d.
+Proof. intros c d [t ->]. symmetry. apply firstn_app_len. reflexivity. Qed.
+
+Lemma firstn_prefix : forall n (d : bytes), is_prefix (firstn n d) d.
+Proof. intros n d. exists (skipn n d). symmetry; apply firstn_skipn. Qed.
+
+Lemma prefix_full : forall c d, is_prefix c d -> length c = length d -> c = d.
+Proof. intros c d Hp Hl. rewrite (prefix_firstn c d Hp), Hl. apply firstn_all. Qed.
+
+Lemma prefix_total : forall a b d, is_prefix a d -> is_prefix b d -> (length a <= length b)%nat -> is_prefix a b.
+Proof.
+  intros a b d Ha Hb Hl. rewrite (prefix_firstn a d Ha), (prefix_firstn b d Hb).
+  exists (skipn (length a) (firstn (length b) d)).
+  rewrite <- (firstn_skipn (length a) (firstn (length b) d)) at 1. f_equal.
+  rewrite firstn_firstn. f_equal. lia.
+Qed.
+
+(* overwriting a prefix of d, from offset 0, with a prefix of d leaves the longer one *)
+Lemma pwrite_prefix : forall c w d, is_prefix c d -> is_prefix w d ->
+  pwrite c 0 w = (if Nat.leb (length c) (length w) then w else c).
+Proof.
+  intros c w d Hc Hw. rewrite pwrite_le by lia. cbn [firstn app Nat.add].
+  destruct (Nat.leb (length c) (length w)) eqn:E.
+  - apply Nat.leb_le in E. rewrite skipn_all2 by exact E. apply app_nil_r.
+  - apply Nat.leb_gt in E. destruct (prefix_total w c d Hw Hc) as [t Ht]; [lia|].
+    rewrite Ht at 1. rewrite skipn_app_len by reflexivity. symmetry; exact Ht.
+Qed.
+
+Lemma pwrite_prefix_is_prefix : forall c w d, is_prefix c d -> is_prefix w d -> is_prefix (pwrite c 0 w) d.
+Proof. intros c w d Hc Hw. rewrite (pwrite_prefix c w d Hc Hw). destruct (Nat.leb _ _); assumption. Qed.
+
+Lemma pwrite_full : forall c d, is_prefix c d -> pwrite c 0 d = d.
+Proof. intros c d Hc. apply pwrite_all. apply prefix_length; exact Hc. Qed.
+
+Lemma prefix_app_firstn : forall (x y : bytes) j, is_prefix (x ++ firstn j y) (x ++ y).
+Proof. intros x y j. exists (skipn j y). rewrite <- app_assoc, firstn_skipn. reflexivity. Qed.
+
+Lemma prefix_trans : forall a b c, is_prefix a b -> is_prefix b c -> is_prefix a c.
+Proof. intros a b c [t ->] [u ->]. exists (t ++ u). rewrite app_assoc. reflexivity. Qed.
+
+(* ---- the invariant *)
+Section Invariant.
+Variable H : bytes -> bytes.
+Variable U : bytes -> Prop.
+
+Definition H_inj_on : Prop := forall a b, U a -> U b -> H a = H b -> a = b.
+
+(* I1: every output file is named by the hash of a content of U and holds a prefix of it *)
+Definition I1 (fs : files) : Prop :=
+  forall out c, fs (DatP out) = Some c -> exists d0, U d0 /\ H d0 = out /\ is_prefix c d0.
+
+(* I2: an index entry that Get accepts names an output that is not the hash of any content of U,
+   or whose file is complete (stated without a case distinction: for every content of U with
+   that hash, the output file holds exactly it) *)
+Definition I2 (fs : files) : Prop :=
+  forall id c out size tm, fs (IdxP id) = Some c -> parse_entry c id = Some (out, size, tm) ->
+    forall d0, U d0 -> H d0 = out -> fs (DatP out) = Some d0.
+
+Definition Inv (fs : files) : Prop := I1 fs /\ I2 fs.
+
+Lemma inv_init : Inv no_files.
+Proof. split; intros ? ? ; discriminate. Qed.
+
+(* what a (possibly failing, possibly interrupted) Put(id, d) may have done to the store *)
+Definition data_ok (d : bytes) (x : option bytes) : Prop :=
+  x = None \/ exists c, x = Some c /\ is_prefix c d.
+
+Definition put_post (id d : bytes) (fs fs' : files) : Prop :=
+  (forall q, q <> DatP (H d) -> q <> IdxP id -> fs' q = fs q) /\
+  data_ok d (fs' (DatP (H d))) /\
+  (fs (DatP (H d)) = Some d -> fs' (DatP (H d)) = Some d) /\
+  (fs' (IdxP id) = fs (IdxP id) \/
+   forall c r, fs' (IdxP id) = Some c -> parse_entry c id = Some r ->
+               fs' (DatP (H d)) = Some d /\ fst (fst r) = H d).
+
+Lemma inv_data_ok : forall fs d, H_inj_on -> U d -> I1 fs -> data_ok d (fs (DatP (H d))).
+Proof.
+  intros fs d Hinj Ud Hi1. destruct (fs (DatP (H d))) as [c|] eqn:E; [right|left; reflexivity].
+  destruct (Hi1 _ _ E) as (d0 & Ud0 & Hh & Hp). assert (d0 = d) by (apply Hinj; assumption). subst.
+  exists c. split; [reflexivity|exact Hp].
+Qed.
+
+Lemma post_inv : forall fs fs' id d, H_inj_on -> U d -> Inv fs -> put_post id d fs fs' -> Inv fs'.
+Proof.
+  intros fs fs' id d Hinj Ud [Hi1 Hi2] (Hfr & Hd & Hkeep & Hidx).
+  assert (forall out d0, U d0 -> H d0 = out -> fs (DatP out) = Some d0 -> fs' (DatP out) = Some d0) as Hc.
+  { intros out d0 Ud0 Hh Hf.
+    destruct (bytes_eqb out (H d)) eqn:E.
+    - apply bytes_eqb_eq in E. subst out. assert (d0 = d) by (apply Hinj; assumption). subst d0.
+      apply Hkeep. exact Hf.
+    - apply bytes_eqb_neq in E. rewrite Hfr; [exact Hf| |discriminate]. intros Eq; inversion Eq; congruence. }
+  split.
+  - intros out c Ec. destruct (bytes_eqb out (H d)) eqn:E.
+    + apply bytes_eqb_eq in E. subst out. destruct Hd as [Hn|(c' & Hs & Hp)]; [congruence|].
+      exists d. split; [exact Ud|]. split; [reflexivity|]. congruence.
+    + apply bytes_eqb_neq in E. rewrite Hfr in Ec; [exact (Hi1 _ _ Ec)| |discriminate].
+      intros Eq; inversion Eq; congruence.
+  - intros id' c out size tm Ec Ep d0 Ud0 Hh. destruct (bytes_eqb id' id) eqn:E.
+    + apply bytes_eqb_eq in E. subst id'. destruct Hidx as [Hsame|Hnew].
+      * rewrite Hsame in Ec. apply Hc; [exact Ud0|exact Hh|]. eapply Hi2; eassumption.
+      * destruct (Hnew _ _ Ec Ep) as [Hf Ho]. cbn in Ho. subst out.
+        assert (d0 = d) by (apply Hinj; assumption). subst d0. exact Hf.
+    + apply bytes_eqb_neq in E. rewrite Hfr in Ec; [|discriminate|intros Eq; inversion Eq; congruence].
+      apply Hc; [exact Ud0|exact Hh|]. eapply Hi2; eassumption.
+Qed.
+
+End Invariant.
+
+(* ---- the out field of an entry that starts like a well-formed one *)
+Lemma app_inv_length : forall (a a' b b' : bytes), length a = length a' -> a ++ b = a' ++ b' -> a = a' /\ b = b'.
+Proof.
+  induction a as [|x a IH]; intros [|y a'] b b' L E; cbn in *; try discriminate.
+  - auto.
+  - inversion E; subst. destruct (IH a' b b') as [-> ->]; [lia|assumption|]. auto.
+Qed.
+
+Lemma parse_entry_out_field : forall e id o X r,
+  length id = hash_size_n -> length o = hash_size_n ->
+  e = x76 :: x31 :: SP :: hex id ++ SP :: hex o ++ X ->
+  parse_entry e id = Some r -> fst (fst r) = o.
+Proof.
+  intros e id o X [[out size] tm] Li Lo Ee Ep. cbn [fst].
+  destruct (parse_entry_strict _ _ _ _ _ Ep) as (_ & hid & hout & ss & st & Es & Lh & Lho & _ & _ & _ & Ho & _).
+  unfold entry_shape in Es. rewrite Es in Ee. inversion Ee as [E1].
+  apply app_inv_length in E1; [|rewrite hex_length, Li, Lh; apply hex_size_hash].
+  destruct E1 as [_ E2]. inversion E2 as [E3].
+  apply app_inv_length in E3; [|rewrite hex_length, Lo, Lho; apply hex_size_hash].
+  destruct E3 as [E4 _]. subst hout. rewrite hex_decode_hex in Ho. congruence.
+Qed.
+
+Lemma encode_entry_prefix : forall id o size tm, exists X,
+  encode_entry id o size tm = x76 :: x31 :: SP :: hex id ++ SP :: hex o ++ X.
+Proof. intros. rewrite encode_entry_eq. unfold entry_shape. eexists. reflexivity. Qed.
+
+Definition regime_a_kind (f : fkind) : Prop := match f with FTorn _ => False | _ => True end.
+
+Section IndexPhase.
+Variable G0 : files -> Prop.
+Variable allowed : fkind -> Prop.
+Variables (id out : bytes) (size : nat) (tm : Z).
+Variable fs1 : files.
+Variable Q : option bytes -> Prop.
+Let pi := IdxP id.
+Let e := encode_entry id out (Z.of_nat size) tm.
+Let c1 := match fs1 pi with Some c => c | None => [] end.
+
+Hypothesis Hbase : forall fs', agree_except pi fs1 fs' -> Q (fs' pi) -> G0 fs'.
+Hypothesis Q_old : Q (fs1 pi).
+Hypothesis Q_none : Q None.
+Hypothesis Q_created : Q (Some c1).
+Hypothesis Q_written : Q (Some (pwrite c1 0 e)).
+Hypothesis Q_final : Q (Some e).
+Hypothesis Q_partial : forall j, (exists j0, allowed (FTorn j0)) -> Q (Some (pwrite c1 0 (firstn j e))).
+Hypothesis e_nonempty : e <> [].
+
+Variable Fi : bool -> prog put_result.
+Hypothesis Fi_ret : forall ok, exists v, Fi ok = Ret v.
+
+Lemma G0_upd : forall x, Q x -> G0 (upd fs1 pi x).
+Proof. intros x Hx. apply Hbase; [apply agree_upd|rewrite upd_same; exact Hx]. Qed.
+
+Lemma G0_upd2 : forall y x, Q x -> G0 (upd (upd fs1 pi y) pi x).
+Proof.
+  intros y x Hx. apply Hbase; [eapply agree_trans; apply agree_upd|rewrite upd_same; exact Hx].
+Qed.
+
+Lemma G0_upd3 : forall z y x, Q x -> G0 (upd (upd (upd fs1 pi z) pi y) pi x).
+Proof.
+  intros z y x Hx. apply Hbase; [|rewrite upd_same; exact Hx].
+  eapply agree_trans; [apply agree_upd|]. eapply agree_trans; apply agree_upd.
+Qed.
+
+Lemma G0_upd4 : forall w z y x, Q x -> G0 (upd (upd (upd (upd fs1 pi w) pi z) pi y) pi x).
+Proof.
+  intros w z y x Hx. apply Hbase; [|rewrite upd_same; exact Hx].
+  eapply agree_trans; [apply agree_upd|]. eapply agree_trans; [apply agree_upd|]. eapply agree_trans; apply agree_upd.
+Qed.
+
+Lemma G0_same : G0 fs1.
+Proof. apply Hbase; [apply agree_refl|exact Q_old]. Qed.
+
+Lemma wrote_short : forall j, wrote_all (RWrote (Nat.min j (length e - 1))) e = false.
+Proof.
+  intros j. unfold wrote_all. apply Nat.eqb_neq. destruct e; [contradiction e_nonempty; reflexivity|cbn [length]; lia].
+Qed.
+
+Lemma index_points :
+  all_points (fun fs o k => forall f, allowed f -> G0 (fst (fault_apply f o k fs))) (fun fs _ => G0 fs)
+    (bind (put_index_prog id out size tm) Fi) fs1.
+Proof.
+  pose proof G0_same as Gs.
+  unfold put_index_prog. rewrite open_index. fold pi e.
+  cbn [bind all_points].
+  assert (forall ok fs, fst (run_seq (Fi ok) fs) = fs) as Hfi.
+  { intros ok fs. destruct (Fi_ret ok) as [v ->]. reflexivity. }
+  assert (forall ok fs, all_points (fun fs o k => forall f, allowed f -> G0 (fst (fault_apply f o k fs))) (fun fs _ => G0 fs) (Fi ok) fs <-> G0 fs) as Hfa.
+  { intros ok fs. destruct (Fi_ret ok) as [v ->]. reflexivity. }
+  (* state after the open: the entry file exists with content c1 *)
+  set (fs2 := match fs1 pi with Some _ => fs1 | None => upd fs1 pi (Some []) end).
+  assert (fs2 pi = Some c1) as H2.
+  { unfold fs2, c1. destruct (fs1 pi) eqn:E; [exact E|apply upd_same]. }
+  assert (forall x, Q x -> G0 (upd fs2 pi x)) as G2.
+  { intros x Hx. unfold fs2. destruct (fs1 pi); [apply G0_upd|apply G0_upd2]; exact Hx. }
+  assert (forall y x, Q x -> G0 (upd (upd fs2 pi y) pi x)) as G3.
+  { intros y x Hx. unfold fs2. destruct (fs1 pi); [apply G0_upd2|apply G0_upd3]; exact Hx. }
+  assert (forall z y x, Q x -> G0 (upd (upd (upd fs2 pi z) pi y) pi x)) as G4.
+  { intros z y x Hx. unfold fs2. destruct (fs1 pi); [apply G0_upd3|apply G0_upd4]; exact Hx. }
+  assert (fs1 pi = None -> Q (Some [])) as Qc.
+  { intros E. pose proof Q_created as X. unfold c1 in X. rewrite E in X. exact X. }
+  assert (G0 fs2) as Gfs2.
+  { unfold fs2. destruct (fs1 pi) eqn:E; [exact Gs|]. apply G0_upd. apply Qc. reflexivity. }
+  assert (step (OOpen pi true false) fs1 = (fs2, ROk)) as Eopen.
+  { cbn [step]. unfold fs2. destruct (fs1 pi); reflexivity. }
+  split.
+  - (* Open *)
+    intros f Hf. destruct f; cbn [fault_apply fail_step short_step fst]; try rewrite Eopen; cbn [fst bind run_seq];
+      try rewrite Hfi; try exact Gs; try exact Gfs2.
+  - rewrite Eopen. cbn [bind all_points]. split.
+    + (* Write *)
+      intros f Hf. destruct f; cbn [fault_apply fail_step short_step step fst]; rewrite ?H2; cbn [fst].
+      * (* fail: close, remove *)
+        cbn [wrote_all bind run_seq step orb is_err]. rewrite H2. cbn [run_seq bind]. rewrite Hfi. apply G2. exact Q_none.
+      * (* short *)
+        rewrite wrote_short. cbn [bind run_seq step orb is_err]. rewrite upd_same. cbn [run_seq bind]. rewrite Hfi.
+        apply G3. exact Q_none.
+      * exact Gfs2.
+      * apply G2. exact Q_written.
+      * apply G2. apply Q_partial. exists j. exact Hf.
+    + cbn [step]. rewrite H2. unfold wrote_all. rewrite Nat.eqb_refl. cbn [bind all_points]. split.
+      * (* Truncate *)
+        intros f Hf. destruct f; cbn [fault_apply fail_step short_step step fst]; rewrite ?upd_same; cbn [fst].
+        -- cbn [is_err bind run_seq step orb]. rewrite upd_same. cbn [run_seq bind]. rewrite Hfi. apply G3. exact Q_none.
+        -- cbn [is_err bind run_seq step orb]. rewrite upd_same. cbn [run_seq bind]. rewrite Hfi. apply G3. exact Q_none.
+        -- apply G2. exact Q_written.
+        -- apply G3. rewrite ftruncate_pwrite. exact Q_final.
+        -- apply G2. exact Q_written.
+      * cbn [step]. rewrite upd_same. cbn [is_err bind all_points]. split.
+        -- (* Close *)
+           intros f Hf. destruct f; cbn [fault_apply fail_step short_step step fst].
+           ++ cbn [is_err orb bind run_seq step]. rewrite upd_same. cbn [run_seq bind]. rewrite Hfi. apply G4. exact Q_none.
+           ++ cbn [is_err orb bind run_seq step]. rewrite upd_same. cbn [run_seq bind]. rewrite Hfi. apply G4. exact Q_none.
+           ++ apply G3. rewrite ftruncate_pwrite. exact Q_final.
+           ++ apply G3. rewrite ftruncate_pwrite. exact Q_final.
+           ++ apply G3. rewrite ftruncate_pwrite. exact Q_final.
+        -- cbn [step is_err orb bind all_points]. split.
+           ++ (* Chtimes *)
+              intros f Hf. destruct f; cbn [fault_apply fail_step short_step step fst bind run_seq]; rewrite ?Hfi;
+                apply G3; rewrite ftruncate_pwrite; exact Q_final.
+           ++ rewrite ?upd_same. apply Hfa. apply G3. rewrite ftruncate_pwrite. exact Q_final.
+Qed.
+
+End IndexPhase.
+
+Lemma all_points_final : forall A (Phi : files -> op -> (res -> prog A) -> Prop) (Psi : files -> A -> Prop) p fs,
+  all_points Phi Psi p fs -> Psi (fst (run_seq p fs)) (snd (run_seq p fs)).
+Proof.
+  induction p as [a|o k IH]; intros fs Hall; cbn in *; [exact Hall|].
+  destruct Hall as [_ Hr]. destruct (step o fs) as [fs' r]. apply IH. exact Hr.
+Qed.
+
+Lemma cut_chunks_nonempty : forall cs n, Forall (fun x : bytes => x <> []) (cut_chunks cs n).
+Proof.
+  induction cs as [|c r IH]; intros n; cbn [cut_chunks]; [constructor|].
+  destruct (Nat.eqb n 0) eqn:E0; [constructor|]. apply Nat.eqb_neq in E0.
+  destruct (Nat.eqb (length c) 0) eqn:Ec; [apply IH|]. apply Nat.eqb_neq in Ec.
+  destruct (Nat.leb (length c) n) eqn:El.
+  - constructor; [intros ->; cbn in Ec; lia|apply IH].
+  - apply Nat.leb_gt in El. constructor; [|constructor]. intros E.
+    apply (f_equal (@length byte)) in E. rewrite firstn_length in E. cbn in E. lia.
+Qed.
+
+Section CopyPhase.
+Variable H : bytes -> bytes.
+Variable G0 : files -> Prop.
+Variable allowed : fkind -> Prop.
+Variable chunks : list bytes.
+Variable fs0 : files.
+Variable F : bool -> prog put_result.
+Let d := concat chunks.
+Let out := H d.
+Let pd := DatP out.
+Let size := length d.
+Let rd := honest_reader chunks.
+Let Phi := fun fs o (k : res -> prog put_result) => forall f, allowed f -> G0 (fst (fault_apply f o k fs)).
+Let Psi := fun fs (_ : put_result) => G0 fs.
+
+Hypothesis Hstop : forall fs', agree_except pd fs0 fs' -> data_ok d (fs' pd) ->
+  (fs0 pd = Some d -> fs' pd = Some d) -> G0 fs'.
+Hypothesis Htrue : forall fsx, agree_except pd fs0 fsx -> fsx pd = Some d -> all_points Phi Psi (F true) fsx.
+Hypothesis Ffalse : exists v, F false = Ret v.
+Hypothesis Hdata : data_ok d (fs0 pd).
+
+Lemma Hseq_true : forall fsx, agree_except pd fs0 fsx -> fsx pd = Some d -> G0 (fst (run_seq (F true) fsx)).
+Proof. intros fsx Ha Hd. apply (all_points_final _ _ _ _ _ (Htrue fsx Ha Hd)). Qed.
+
+(* the sequential rest after a fault that sends copyFile into (or keeps it in) its rewrite path *)
+Lemma seq_rewrite_then : forall fsx bigger, agree_except pd fs0 fsx ->
+  (length (opened (fsx pd) bigger) <= length d)%nat ->
+  G0 (fst (run_seq (bind (copy_rewrite H rd out size bigger) F) fsx)).
+Proof.
+  intros fsx bigger Ha Hl. rewrite run_seq_bind.
+  destruct (seq_copy_rewrite_honest H chunks fsx bigger Hl) as (fs' & E & Hd & Ha').
+  fold d out size rd in E. rewrite E. apply Hseq_true; [eapply agree_trans; eassumption|exact Hd].
+Qed.
+
+Lemma data_ok_opened : forall fsx bigger, data_ok d (fsx pd) -> (length (opened (fsx pd) bigger) <= length d)%nat.
+Proof.
+  intros fsx bigger [Hn|(c & Hs & Hp)]; rewrite ?Hn, ?Hs; unfold opened; [cbn; lia|].
+  destruct bigger; [cbn; lia|apply prefix_length; exact Hp].
+Qed.
+
+Lemma seq_truncfail_then : forall fsx cx, agree_except pd fs0 fsx -> fsx pd = Some cx ->
+  (fs0 pd <> Some d) -> G0 (fst (run_seq (bind (trunc_fail pd) F) fsx)).
+Proof.
+  intros fsx cx Ha Hc Hinc. destruct Ffalse as [v Ev]. unfold trunc_fail. cbn [bind run_seq step]. rewrite Hc.
+  cbn [run_seq step bind]. rewrite Ev. cbn [run_seq fst].
+  apply Hstop.
+  - eapply agree_trans; [exact Ha|apply agree_upd].
+  - right. rewrite upd_same. exists []. split; [reflexivity|apply prefix_nil].
+  - intros E; contradiction.
+Qed.
+
+(* the chunk-writing loop of the rewrite path, from a file that held a prefix c1 of d *)
+Lemma points_chunks : forall (K : bool -> prog bool) c1 cs w fsi,
+  is_prefix c1 d -> fs0 pd <> Some d ->
+  fsi pd = Some (pwrite c1 0 w) -> agree_except pd fs0 fsi ->
+  is_prefix (w ++ concat cs) d -> Forall (fun x : bytes => x <> []) cs ->
+  (forall fsx cx, agree_except pd fs0 fsx -> fsx pd = Some cx -> G0 (fst (run_seq (bind (K false) F) fsx))) ->
+  (forall fse, fse pd = Some (pwrite c1 0 (w ++ concat cs)) -> agree_except pd fs0 fse ->
+               all_points Phi Psi (bind (K true) F) fse) ->
+  all_points Phi Psi (bind (write_chunks pd cs (length w) K) F) fsi.
+Proof.
+  intros K c1 cs. induction cs as [|x r IH]; intros w fsi Hc1 Hinc Hfsi Hag Hpre Hne Hfail Hcont.
+  - cbn [write_chunks]. apply Hcont; [rewrite app_nil_r; exact Hfsi|exact Hag].
+  - cbn [concat] in Hpre. inversion Hne as [|? ? Hx Hr]; subst.
+    assert (is_prefix w d) as Hw by (eapply prefix_trans; [|exact Hpre]; exists (x ++ concat r); reflexivity).
+    assert (forall y, is_prefix (w ++ y) d -> forall fs', agree_except pd fsi fs' ->
+              fs' pd = Some (pwrite (pwrite c1 0 w) (length w) y) -> G0 fs') as Hst.
+    { intros y Hy fs' Ha' Hp'. apply Hstop.
+      - eapply agree_trans; eassumption.
+      - right. rewrite Hp'. eexists. split; [reflexivity|].
+        change (length w) with (0 + length w)%nat. rewrite pwrite_app by lia.
+        apply pwrite_prefix_is_prefix; assumption.
+      - intros E; contradiction. }
+    cbn [write_chunks bind all_points]. split.
+    + intros f Hf. destruct f; cbn [fault_apply fail_step short_step step fst]; rewrite ?Hfsi; cbn [fst wrote_all].
+      * apply (Hfail fsi _ Hag Hfsi).
+      * replace (Nat.eqb (Nat.min j (length x - 1)) (length x)) with false
+          by (symmetry; apply Nat.eqb_neq; destruct x; [contradiction|cbn [length]; lia]).
+        eapply Hfail; [eapply agree_trans; [exact Hag|apply agree_upd]|apply upd_same].
+      * apply (Hst []); [rewrite app_nil_r; exact Hw|apply agree_refl|].
+        rewrite Hfsi. f_equal. symmetry. apply pwrite_nil. rewrite pwrite_length by lia. lia.
+      * apply (Hst x); [eapply prefix_trans; [|exact Hpre]; rewrite app_assoc; eexists; reflexivity|apply agree_upd|apply upd_same].
+      * apply (Hst (firstn (Nat.min j (length x - 1)) x)); [|apply agree_upd|apply upd_same].
+        eapply prefix_trans; [apply prefix_app_firstn|]. eapply prefix_trans; [|exact Hpre].
+        rewrite app_assoc. eexists; reflexivity.
+    + cbn [step]. rewrite Hfsi. cbn [wrote_all]. rewrite Nat.eqb_refl.
+      replace (length w + length x)%nat with (length (w ++ x)) by (rewrite app_length; reflexivity).
+      apply IH; try assumption.
+      * rewrite upd_same. f_equal. change (length w) with (0 + length w)%nat. apply pwrite_app. lia.
+      * eapply agree_trans; [exact Hag|apply agree_upd].
+      * rewrite <- app_assoc. exact Hpre.
+      * intros fse Hfse Hage. apply Hcont; [rewrite Hfse; cbn [concat]; rewrite app_assoc; reflexivity|exact Hage].
+Qed.
+
+Lemma size_pos_last : (0 < size)%nat ->
+  exists b, nth_error d (size - 1) = Some b /\ firstn (size - 1) d ++ [b] = d.
+Proof. intros Hs. apply firstn_pred_last. exact Hs. Qed.
+
+(* copyFile's rewrite path entered with the fault still to come: the file is absent or incomplete *)
+Lemma rewrite_points : fs0 pd <> Some d ->
+  all_points Phi Psi (bind (copy_rewrite H rd out size false) F) fs0.
+Proof.
+  intros Hinc. unfold copy_rewrite. fold pd. rewrite open_copy_small. cbn [bind all_points].
+  destruct Ffalse as [vF EF].
+  set (c1 := opened (fs0 pd) false).
+  set (fs1 := match fs0 pd with Some _ => fs0 | None => upd fs0 pd (Some []) end).
+  assert (step (OOpen pd true false) fs0 = (fs1, ROk)) as Eopen.
+  { cbn [step]. unfold fs1. destruct (fs0 pd); reflexivity. }
+  assert (fs1 pd = Some c1) as H1.
+  { unfold fs1, c1, opened. destruct (fs0 pd) eqn:E; [exact E|apply upd_same]. }
+  assert (agree_except pd fs0 fs1) as A1.
+  { unfold fs1. destruct (fs0 pd); [apply agree_refl|apply agree_upd]. }
+  assert (is_prefix c1 d) as P1.
+  { unfold c1, opened. destruct Hdata as [Hn|(c & Hs & Hp)]; rewrite ?Hn, ?Hs; [apply prefix_nil|exact Hp]. }
+  assert (forall fs' x, agree_except pd fs0 fs' -> fs' pd = x -> data_ok d x -> G0 fs') as Gst.
+  { intros fs' x Ha Hx Hd. apply Hstop; [exact Ha|rewrite Hx; exact Hd|intros E; contradiction]. }
+  assert (G0 fs0) as G00 by (apply (Gst fs0 _ (agree_refl _ _) eq_refl Hdata)).
+  assert (G0 fs1) as G01.
+  { apply (Gst fs1 _ A1 H1). right. exists c1. split; [reflexivity|exact P1]. }
+  split.
+  - intros f Hf. destruct f; cbn [fault_apply fail_step short_step fst bind run_seq]; rewrite ?Eopen, ?EF; cbn [fst run_seq]; assumption.
+  - rewrite Eopen. destruct (Nat.eqb size 0) eqn:E0.
+    + (* the empty output *)
+      apply Nat.eqb_eq in E0. assert (d = []) as Ed by (destruct d; [reflexivity|discriminate]).
+      assert (c1 = []) as Ec1.
+      { destruct P1 as [t Ht]. rewrite Ed in Ht. destruct c1; [reflexivity|discriminate]. }
+      assert (fs1 pd = Some d) as H1d by (rewrite H1, Ec1, Ed; reflexivity).
+      cbn [bind all_points]. split.
+      * intros f Hf. destruct f; cbn [fault_apply fail_step short_step step fst bind]; try exact G01;
+          apply Hseq_true; assumption.
+      * cbn [step]. apply Htrue; assumption.
+    + apply Nat.eqb_neq in E0. cbn [rd honest_reader rd_seek2 rd_pass2 negb].
+      destruct (size_pos_last ltac:(lia)) as (b & Eb & Ed).
+      apply (points_chunks _ c1 _ [] fs1); try assumption.
+      * cbn [app]. rewrite cut_chunks_concat. apply firstn_prefix.
+      * apply cut_chunks_nonempty.
+      * intros fsx cx Ha Hc. cbn [negb]. eapply seq_truncfail_then; eassumption.
+      * intros fse Hfse Hage. cbn [app] in Hfse. rewrite cut_chunks_concat in Hfse. fold d in Hfse |- *. fold size in Hfse |- *.
+        cbn [negb].
+        match goal with |- context [Nat.ltb ?a ?b] =>
+          replace (Nat.ltb a b) with false by (symmetry; apply Nat.ltb_ge; unfold size; lia) end.
+        rewrite Eb, Ed. unfold out. rewrite bytes_eqb_refl. cbn [negb bind all_points].
+        set (w1 := firstn (size - 1) d) in *.
+        assert (length w1 = size - 1)%nat as Lw1 by (unfold w1; rewrite firstn_length; unfold size; lia).
+        assert (is_prefix w1 d) as Pw1 by apply firstn_prefix.
+        assert (size - 1 <= length (pwrite c1 0 w1))%nat as Lpw by (rewrite pwrite_length by lia; lia).
+        assert (pwrite (pwrite c1 0 w1) (size - 1) [b] = d) as ED.
+        { replace (size - 1)%nat with (0 + length w1)%nat by lia. rewrite pwrite_app by lia. rewrite Ed.
+          apply pwrite_full. exact P1. }
+        assert (G0 fse) as G0e.
+        { apply (Gst fse _ Hage Hfse). right. eexists. split; [reflexivity|]. apply pwrite_prefix_is_prefix; assumption. }
+        set (fs3 := upd fse pd (Some d)).
+        assert (agree_except pd fs0 fs3) as A3 by (eapply agree_trans; [exact Hage|apply agree_upd]).
+        assert (fs3 pd = Some d) as H3 by apply upd_same.
+        assert (G0 fs3) as G03.
+        { apply (Gst fs3 _ A3 H3). right. exists d. split; [reflexivity|apply prefix_refl]. }
+        split.
+        -- (* the committing write of the last byte *)
+           intros f Hf. destruct f; cbn [fault_apply fail_step short_step step fst]; rewrite ?Hfse; cbn [fst wrote_all length Nat.min Nat.sub Nat.eqb firstn].
+           ++ eapply seq_truncfail_then; eassumption.
+           ++ replace (Nat.min j 0) with 0%nat by lia. cbn [Nat.eqb firstn].
+              eapply seq_truncfail_then; [eapply agree_trans; [exact Hage|apply agree_upd]|apply upd_same|exact Hinc].
+           ++ exact G0e.
+           ++ rewrite ED. exact G03.
+           ++ replace (Nat.min j 0) with 0%nat by lia. cbn [firstn]. rewrite pwrite_nil by exact Lpw.
+              apply (Gst _ _ (agree_trans _ _ _ _ Hage (agree_upd _ _ _)) (upd_same _ _ _)).
+              right. eexists. split; [reflexivity|]. apply pwrite_prefix_is_prefix; assumption.
+        -- cbn [step]. rewrite Hfse, ED. fold fs3. cbn [wrote_all length Nat.eqb bind all_points]. split.
+           ++ (* Close *)
+              intros f Hf. destruct f; cbn [fault_apply fail_step short_step step fst is_err bind run_seq]; try exact G03.
+              ** rewrite ?H3, ?upd_same. cbn [run_seq step bind]. rewrite EF. cbn [run_seq fst].
+                 apply (Gst _ None (agree_trans _ _ _ _ A3 (agree_upd _ _ _)) (upd_same _ _ _)). left; reflexivity.
+              ** rewrite ?H3, ?upd_same. cbn [run_seq step bind]. rewrite EF. cbn [run_seq fst].
+                 apply (Gst _ None (agree_trans _ _ _ _ A3 (agree_upd _ _ _)) (upd_same _ _ _)). left; reflexivity.
+           ++ cbn [step is_err bind all_points]. split.
+              ** intros f Hf. destruct f; cbn [fault_apply fail_step short_step step fst bind run_seq]; try exact G03;
+                   apply Hseq_true; assumption.
+              ** cbn [step]. rewrite ?H3, ?upd_same. cbn [bind all_points]. split.
+                 --- intros f Hf. destruct f; cbn [fault_apply fail_step short_step step fst bind run_seq]; try exact G03;
+                       apply Hseq_true; assumption.
+                 --- cbn [step]. apply Htrue; assumption.
+Qed.
+
+Lemma seq_reuse_then : forall fsx,
+  run_seq (bind (if copy_reuse_refreshes then used_prog pd (Ret true) else Ret true) F) fsx = run_seq (F true) fsx.
+Proof.
+  intros fsx. destruct copy_reuse_refreshes; [|reflexivity].
+  unfold used_prog. cbn [bind run_seq step]. destruct (fsx pd); reflexivity.
+Qed.
+
+Lemma copy_points : all_points Phi Psi (bind (copy_file_prog H rd out size) F) fs0.
+Proof.
+  unfold copy_file_prog. fold pd. cbn [bind all_points].
+  assert (G0 fs0) as G00 by (apply Hstop; [apply agree_refl|exact Hdata|auto]).
+  assert (G0 (fst (run_seq (bind (copy_rewrite H rd out size false) F) fs0))) as Grw.
+  { apply seq_rewrite_then; [apply agree_refl|apply data_ok_opened; exact Hdata]. }
+  split.
+  - intros f Hf. destruct f; cbn [fault_apply fail_step short_step step fst]; assumption.
+  - cbn [step]. destruct (fs0 pd) as [c|] eqn:E0 in |- *.
+    + assert (is_prefix c d) as Pc by (destruct Hdata as [Hn|(c' & Hs & Hp)]; congruence).
+      destruct (Nat.eqb (length c) size) eqn:El.
+      * apply Nat.eqb_eq in El. assert (c = d) by (apply prefix_full; assumption). subst c.
+        assert (G0 (fst (run_seq (F true) fs0))) as Gt by (apply Hseq_true; [apply agree_refl|exact E0]).
+        assert (forall x, G0 (fst (run_seq (bind (Op (OClose pd) (fun _ =>
+                   if bytes_eqb (H x) out
+                   then (if copy_reuse_refreshes then used_prog pd (Ret true) else Ret true)
+                   else copy_rewrite H rd out size false)) F) fs0))) as Gany.
+        { intros x. cbn [bind run_seq step]. destruct (bytes_eqb (H x) out); [rewrite seq_reuse_then; exact Gt|exact Grw]. }
+        cbn [bind all_points]. split.
+        -- intros f Hf. destruct f; cbn [fault_apply fail_step short_step step fst]; rewrite ?E0; assumption.
+        -- cbn [step]. rewrite E0. cbn [bind all_points]. split.
+           ++ intros f Hf. destruct f; cbn [fault_apply fail_step short_step step fst]; rewrite ?E0; try exact G00; apply Gany.
+           ++ cbn [step]. rewrite E0. cbn [bind all_points]. split.
+              ** intros f Hf. destruct f; cbn [fault_apply fail_step short_step step fst]; try exact G00; apply (Gany d).
+              ** cbn [step]. unfold out. rewrite bytes_eqb_refl.
+                 destruct copy_reuse_refreshes.
+                 --- unfold used_prog. cbn [bind all_points]. split.
+                     +++ intros f Hf. destruct f; cbn [fault_apply fail_step short_step step fst bind run_seq]; try exact G00; exact Gt.
+                     +++ cbn [step]. rewrite E0. apply Htrue; [apply agree_refl|exact E0].
+                 --- apply Htrue; [apply agree_refl|exact E0].
+      * apply Nat.eqb_neq in El.
+        replace (Nat.ltb size (length c)) with false
+          by (symmetry; apply Nat.ltb_ge; apply prefix_length; exact Pc).
+        apply rewrite_points. rewrite E0. intros E; inversion E; subst. apply El. reflexivity.
+    + apply rewrite_points. rewrite E0. discriminate.
+Qed.
+
+End CopyPhase.
+
+(* ---- C12, regime (a): one fault per Put *)
+Section FaultyPut.
+Variable H : bytes -> bytes.
+Hypothesis H_len : forall x, length (H x) = hash_size_n.
+
+Lemma honest_is_honest_reader : forall rd, honest rd -> rd = honest_reader (rd_pass2 rd).
+Proof. intros [s1 p1 o1 s2 p2] (E1 & E2 & E3 & E4). cbn in *. subst. reflexivity. Qed.
+
+Lemma entry_parses_out : forall id out size tm T r,
+  length id = hash_size_n ->
+  parse_entry (encode_entry id out size tm ++ T) id = Some r -> length out = hash_size_n -> fst (fst r) = out.
+Proof.
+  intros id out size tm T r Li Ep Lo. destruct (encode_entry_prefix id out size tm) as [X EX].
+  eapply parse_entry_out_field; [exact Li|exact Lo| |exact Ep].
+  rewrite EX. cbn [app]. rewrite <- !app_assoc. cbn [app]. rewrite <- app_assoc. reflexivity.
+Qed.
+
+Theorem put_faulty_post_honest : forall chunks fs id tm b,
+  let d := concat chunks in
+  length id = hash_size_n ->
+  data_ok d (fs (DatP (H d))) ->
+  (forall n f, b = Some (n, f) -> regime_a_kind f) ->
+  put_post H id d fs (fst (fst (run_f b (put_prog H id (honest_reader chunks) tm) fs))).
+Proof.
+  intros chunks fs id tm b d Li Hdata Hb.
+  unfold put_prog. cbn [honest_reader rd_seek1 rd_ok1 rd_pass1 negb orb]. fold d.
+  set (pd := DatP (H d)). set (pi := IdxP id).
+  set (Fi := fun ok2 : bool => Ret (if ok2 then PutOk (H d) (length d) else PutFailed (H d) (length d))).
+  set (Fc := fun ok : bool => if ok then bind (put_index_prog id (H d) (length d) tm) Fi else Ret (PutFailed (H d) (length d))).
+  apply (run_f_sound _ (fun x => put_post H id d fs (fst x)) regime_a_kind); [|exact Hb].
+  apply (copy_points H (put_post H id d fs) regime_a_kind chunks fs Fc).
+  - (* stops and failures of the copy phase *)
+    intros fs' Ha Hd Hk. split; [|split; [exact Hd|split; [exact Hk|]]].
+    + intros q N1 N2. apply Ha. exact N1.
+    + left. apply Ha. discriminate.
+  - (* the index phase *)
+    intros fsx Ha Hx. unfold Fc.
+    set (e := encode_entry id (H d) (Z.of_nat (length d)) tm).
+    apply (index_points (put_post H id d fs) regime_a_kind id (H d) (length d) tm fsx
+             (fun x => x = fsx pi \/ forall c r, x = Some c -> parse_entry c id = Some r -> fst (fst r) = H d)).
+    + intros fs' Ha' HQ. split; [|split; [|split]].
+      * intros q N1 N2. rewrite Ha' by exact N2. apply Ha. exact N1.
+      * right. exists d. split; [|apply prefix_refl]. rewrite Ha' by discriminate. exact Hx.
+      * intros _. rewrite Ha' by discriminate. exact Hx.
+      * destruct HQ as [HQ|HQ].
+        -- left. rewrite HQ. apply Ha. discriminate.
+        -- right. intros c r Ec Ep. split; [rewrite Ha' by discriminate; exact Hx|]. eapply HQ; eassumption.
+    + left; reflexivity.
+    + right. intros c r E; discriminate.
+    + fold pi. destruct (fsx pi); [left; reflexivity|]. right. intros c r E Ep. inversion E; subst. discriminate.
+    + right. intros c r E Ep. inversion E; subst c. rewrite pwrite_le in Ep by lia. cbn [firstn app Nat.add] in Ep.
+      eapply entry_parses_out; [exact Li|exact Ep|apply H_len].
+    + right. intros c r E Ep. inversion E; subst c. rewrite <- (app_nil_r (encode_entry _ _ _ _)) in Ep.
+      eapply entry_parses_out; [exact Li|exact Ep|apply H_len].
+    + intros j [j0 []].
+    + destruct (encode_entry_prefix id (H d) (Z.of_nat (length d)) tm) as [X EX]. rewrite EX. discriminate.
+    + intros ok. eexists. reflexivity.
+  - eexists. reflexivity.
+  - exact Hdata.
+Qed.
+
+(* ---- any source reader, no file fault: the sequential run *)
+Definition reader_no_collision (rd : reader) : Prop :=
+  let d := rd_pass1 rd in
+  let x := firstn (length d) (concat (rd_pass2 rd)) in
+  H x = H d -> x = d.
+
+Lemma seq_copy_rewrite_any : forall rd fs,
+  let d := rd_pass1 rd in
+  let pd := DatP (H d) in
+  reader_no_collision rd -> data_ok d (fs pd) ->
+  exists fs' r, run_seq (copy_rewrite H rd (H d) (length d) false) fs = (fs', r) /\ agree_except pd fs fs' /\
+                ((r = true /\ fs' pd = Some d) \/ (r = false /\ fs' pd = Some [])).
+Proof.
+  intros rd fs d pd Hcol Hdata. unfold copy_rewrite. fold pd. rewrite open_copy_small.
+  set (c1 := opened (fs pd) false).
+  set (fs1 := match fs pd with Some _ => fs | None => upd fs pd (Some []) end).
+  assert (step (OOpen pd true false) fs = (fs1, ROk)) as Eopen by (cbn [step]; unfold fs1; destruct (fs pd); reflexivity).
+  assert (fs1 pd = Some c1) as H1 by (unfold fs1, c1, opened; destruct (fs pd) eqn:E; [exact E|apply upd_same]).
+  assert (agree_except pd fs fs1) as A1 by (unfold fs1; destruct (fs pd); [apply agree_refl|apply agree_upd]).
+  assert (is_prefix c1 d) as P1.
+  { unfold c1, opened. destruct Hdata as [Hn|(c & Hs & Hp)]; rewrite ?Hn, ?Hs; [apply prefix_nil|exact Hp]. }
+  cbn [run_seq]. rewrite Eopen.
+  assert (forall fsx cx, agree_except pd fs fsx -> fsx pd = Some cx ->
+            exists fs' r, run_seq (trunc_fail pd) fsx = (fs', r) /\ agree_except pd fs fs' /\
+              ((r = true /\ fs' pd = Some d) \/ (r = false /\ fs' pd = Some []))) as Htf.
+  { intros fsx cx Ha Hc. unfold trunc_fail. cbn [run_seq step]. rewrite Hc. cbn [run_seq step].
+    eexists _, _. split; [reflexivity|]. split; [eapply agree_trans; [exact Ha|apply agree_upd]|].
+    right. split; [reflexivity|]. apply upd_same. }
+  destruct (Nat.eqb (length d) 0) eqn:E0.
+  - apply Nat.eqb_eq in E0. cbn [run_seq step]. exists fs1, true. split; [reflexivity|]. split; [exact A1|]. left. split; [reflexivity|].
+    rewrite H1. f_equal. apply prefix_full; [exact P1|]. apply prefix_length in P1. lia.
+  - apply Nat.eqb_neq in E0. destruct (negb (rd_seek2 rd)); [apply (Htf fs1 c1 A1 H1)|].
+    set (flat := concat (rd_pass2 rd)) in *.
+    match goal with |- context [write_chunks pd ?cs 0 ?K] =>
+      destruct (seq_write_chunks _ pd cs 0 fs1 c1 K H1 (Nat.le_0_l _)) as (fs2 & E2 & Hp2 & Ha2) end.
+    rewrite E2. cbn [negb]. rewrite cut_chunks_concat in Hp2. fold flat in Hp2.
+    assert (agree_except pd fs fs2) as A2 by (eapply agree_trans; eassumption).
+    destruct (Nat.ltb (length flat) (length d - 1)) eqn:Elt; [apply (Htf fs2 _ A2 Hp2)|].
+    destruct (nth_error flat (length d - 1)) as [b|] eqn:Eb; [|apply (Htf fs2 _ A2 Hp2)].
+    destruct (bytes_eqb (H (firstn (length d - 1) flat ++ [b])) (H d)) eqn:Eh; cbn [negb]; [|apply (Htf fs2 _ A2 Hp2)].
+    apply bytes_eqb_eq in Eh. rewrite (nth_error_firstn_snoc _ _ _ Eb) in Eh.
+    replace (S (length d - 1)) with (length d) in Eh by lia.
+    pose proof (Hcol Eh) as Ex. fold flat in Ex.
+    cbn [run_seq step]. rewrite Hp2. cbn [wrote_all length Nat.eqb run_seq step is_err].
+    eexists _, true. split; [reflexivity|]. split; [eapply agree_trans; [exact A2|apply agree_upd]|].
+    left. split; [reflexivity|]. rewrite upd_same. f_equal.
+    assert (firstn (length d - 1) flat ++ [b] = d) as Ed.
+    { rewrite (nth_error_firstn_snoc _ _ _ Eb). replace (S (length d - 1)) with (length d) by lia. exact Ex. }
+    replace (length d - 1)%nat with (0 + length (firstn (length d - 1) flat))%nat at 2.
+    + rewrite pwrite_app by lia. rewrite Ed. apply pwrite_full. exact P1.
+    + apply Nat.ltb_ge in Elt. rewrite firstn_length. lia.
+Qed.
+
+Lemma seq_copy_file_any : forall rd fs,
+  let d := rd_pass1 rd in
+  let pd := DatP (H d) in
+  reader_no_collision rd -> data_ok d (fs pd) ->
+  exists fs' r, run_seq (copy_file_prog H rd (H d) (length d)) fs = (fs', r) /\ agree_except pd fs fs' /\
+                ((r = true /\ fs' pd = Some d) \/ (r = false /\ fs' pd = Some [] /\ fs pd <> Some d)).
+Proof.
+  intros rd fs d pd Hcol Hdata. unfold copy_file_prog. fold pd. cbn [run_seq step].
+  assert (fs pd <> Some d -> exists fs' r, run_seq (copy_rewrite H rd (H d) (length d) false) fs = (fs', r) /\ agree_except pd fs fs' /\
+                ((r = true /\ fs' pd = Some d) \/ (r = false /\ fs' pd = Some [] /\ fs pd <> Some d))) as Hrw.
+  { intros Hinc. destruct (seq_copy_rewrite_any rd fs Hcol Hdata) as (fs' & r & E & Ha & Hr).
+    exists fs', r. split; [exact E|]. split; [exact Ha|]. destruct Hr as [Hr|[Hr1 Hr2]]; [left; exact Hr|right; auto]. }
+  destruct (fs pd) as [c|] eqn:E0 in |- *.
+  - assert (is_prefix c d) as Pc by (destruct Hdata as [Hn|(c' & Hs & Hp)]; congruence).
+    destruct (Nat.eqb (length c) (length d)) eqn:El.
+    + apply Nat.eqb_eq in El. assert (c = d) by (apply prefix_full; assumption). subst c.
+      cbn [run_seq step]. rewrite E0. cbn [run_seq step]. rewrite E0, bytes_eqb_refl.
+      exists fs, true. split; [|split; [apply agree_refl|left; auto]].
+      destruct copy_reuse_refreshes; cbv iota; [rewrite run_used|]; reflexivity.
+    + apply Nat.eqb_neq in El.
+      replace (Nat.ltb (length d) (length c)) with false by (symmetry; apply Nat.ltb_ge; apply prefix_length; exact Pc).
+      rewrite <- E0. apply Hrw. rewrite E0. intros E; inversion E; subst. apply El; reflexivity.
+  - rewrite <- E0. apply Hrw. rewrite E0. discriminate.
+Qed.
+
+Theorem put_seq_post : forall rd fs id tm,
+  let d := rd_pass1 rd in
+  length id = hash_size_n ->
+  reader_no_collision rd -> data_ok d (fs (DatP (H d))) ->
+  put_post H id d fs (fst (put H fs id rd tm)).
+Proof.
+  intros rd fs id tm d Li Hcol Hdata. unfold put, put_prog.
+  assert (put_post H id d fs fs) as Psame.
+  { split; [auto|]. split; [exact Hdata|]. split; [auto|]. left; reflexivity. }
+  destruct (negb (rd_seek1 rd) || negb (rd_ok1 rd)); [exact Psame|]. fold d.
+  rewrite run_seq_bind.
+  destruct (seq_copy_file_any rd fs Hcol Hdata) as (fs1 & r & E1 & Ha1 & Hr). fold d in E1, Ha1, Hr. rewrite E1.
+  destruct Hr as [[-> Hd1]|(-> & Hd1 & Hinc)].
+  - rewrite run_seq_bind. destruct (seq_put_index fs1 id (H d) (length d) tm) as (fs2 & E2 & Hi2 & Ha2).
+    rewrite E2. cbn [run_seq fst]. split; [|split; [|split]].
+    + intros q N1 N2. rewrite Ha2 by exact N2. apply Ha1. exact N1.
+    + right. exists d. split; [|apply prefix_refl]. rewrite Ha2 by discriminate. exact Hd1.
+    + intros _. rewrite Ha2 by discriminate. exact Hd1.
+    + right. intros c r Ec Ep. split; [rewrite Ha2 by discriminate; exact Hd1|].
+      rewrite Hi2 in Ec. inversion Ec; subst c. rewrite <- (app_nil_r (encode_entry _ _ _ _)) in Ep.
+      eapply entry_parses_out; [exact Li|exact Ep|apply H_len].
+  - cbn [run_seq fst]. split; [|split; [|split]].
+    + intros q N1 N2. apply Ha1. exact N1.
+    + right. exists []. split; [exact Hd1|apply prefix_nil].
+    + intros E; contradiction.
+    + left. apply Ha1. discriminate.
+Qed.
+
+End FaultyPut.
+
+Section C12a.
+Variable H : bytes -> bytes.
+Variable U : bytes -> Prop.
+Hypothesis H_len : forall x, length (H x) = hash_size_n.
+Hypothesis H_inj : H_inj_on H U.
+
+(* the conditions of regime (a): the source is well-behaved and one file operation faults, or
+   the source misbehaves (error, early end, other bytes on the second pass) and no operation faults *)
+Definition one_fault (b : budget) (rd : reader) : Prop :=
+  (honest rd /\ regime_a b) \/ (b = None /\ reader_no_collision H rd).
+
+Theorem put_faulty_post : forall fs id rd tm b,
+  length id = hash_size_n -> I1 H U fs -> U (rd_pass1 rd) -> one_fault b rd ->
+  put_post H id (rd_pass1 rd) fs (fst (fst (run_f b (put_prog H id rd tm) fs))).
+Proof.
+  intros fs id rd tm b Li Hi1 Ud [[Hh Hr]|[-> Hc]].
+  - rewrite (honest_is_honest_reader rd Hh) at 2.
+    assert (rd_pass1 rd = concat (rd_pass2 rd)) as E by (destruct Hh as (_ & _ & _ & E); auto).
+    rewrite E. apply put_faulty_post_honest; [exact H_len|exact Li| |].
+    + rewrite <- E. apply (inv_data_ok H U); assumption.
+    + intros n f ->. destruct f; cbn in *; auto.
+  - rewrite run_f_none. cbn [fst]. apply put_seq_post; [exact H_len|exact Li|exact Hc|].
+    apply (inv_data_ok H U); assumption.
+Qed.
+
+Theorem inv_put_faulty : forall fs id rd tm b,
+  Inv H U fs -> length id = hash_size_n -> U (rd_pass1 rd) -> one_fault b rd ->
+  Inv H U (fst (fst (run_f b (put_prog H id rd tm) fs))).
+Proof.
+  intros fs id rd tm b Hinv Li Ud Hone.
+  eapply post_inv; [exact H_inj|exact Ud|exact Hinv|].
+  apply put_faulty_post; [exact Li|apply Hinv|exact Ud|exact Hone].
+Qed.
+
+(* from an undamaged cache, a file named by GetFile holds exactly the bytes with that OutputID *)
+Theorem get_file_exact : forall fs id p out size tm,
+  Inv H U fs -> get_file fs id = Found p out size tm ->
+  exists d0, U d0 /\ H d0 = out /\ fs p = Some d0 /\ Z.of_nat (length d0) = size.
+Proof.
+  intros fs id p out size tm [Hi1 Hi2] Hg. unfold get_file in Hg. rewrite run_get_file in Hg. cbn [snd] in Hg.
+  unfold entry_of in Hg. destruct (fs (IdxP id)) as [c|] eqn:Ec; [|discriminate].
+  destruct (parse_entry c id) as [[[o s] t]|] eqn:Ep; [|discriminate]. cbn [file_lookup] in Hg.
+  destruct (fs (DatP o)) as [x|] eqn:Ex; [|discriminate].
+  destruct (Z.eqb (Z.of_nat (length x)) s) eqn:Es; [|discriminate]. inversion Hg; subst. apply Z.eqb_eq in Es.
+  destruct (Hi1 _ _ Ex) as (d0 & Ud0 & Hh & Hp).
+  pose proof (Hi2 _ _ _ _ _ Ec Ep d0 Ud0 Hh) as Hf1.
+  rewrite Ex in Hf1. inversion Hf1; subst. exists d0. auto.
+Qed.
+
+(* a Put that fails or is interrupted leaves every lookup of every other id as it was *)
+Theorem failed_put_frame : forall fs id rd tm b id',
+  Inv H U fs -> length id = hash_size_n -> U (rd_pass1 rd) -> one_fault b rd -> id' <> id ->
+  let fs' := fst (fst (run_f b (put_prog H id rd tm) fs)) in
+  get fs' id' = get fs id' /\ get_bytes H fs' id' = get_bytes H fs id' /\ get_file fs' id' = get_file fs id'.
+Proof.
+  intros fs id rd tm b id' [Hi1 Hi2] Li Ud Hone Nid fs'.
+  destruct (put_faulty_post fs id rd tm b Li Hi1 Ud Hone) as (Hfr & _ & Hkeep & _). fold fs' in Hfr, Hkeep.
+  apply lookups_depend.
+  - apply Hfr; [discriminate|]. intros E; inversion E; congruence.
+  - intros out size t Ee. unfold entry_of in Ee. destruct (fs (IdxP id')) as [c|] eqn:Ec; [|discriminate].
+    destruct (bytes_eqb out (H (rd_pass1 rd))) eqn:Eo.
+    + apply bytes_eqb_eq in Eo. subst out.
+      pose proof (Hi2 _ _ _ _ _ Ec Ee (rd_pass1 rd) Ud eq_refl) as Hf1.
+      rewrite Hf1. apply Hkeep. exact Hf1.
+    + apply bytes_eqb_neq in Eo. apply Hfr; [|discriminate]. intros E; inversion E; congruence.
+Qed.
+
+End C12a.
+
+(* ---- C12, regime (b): torn write then stop *)
+Lemma nth_error_skipn_add : forall (l : bytes) n i, nth_error (skipn n l) i = nth_error l (n + i).
+Proof.
+  induction l as [|x l IH]; intros n i.
+  - rewrite skipn_nil. destruct i, n; reflexivity.
+  - destruct n; [reflexivity|]. cbn. apply IH.
+Qed.
+
+(* every byte of c is, at its position, a byte of e or a byte of the old content *)
+Definition idx_from (e : bytes) (old : option bytes) (c : bytes) : Prop :=
+  forall i b, nth_error c i = Some b ->
+    nth_error e i = Some b \/ exists c0, old = Some c0 /\ nth_error c0 i = Some b.
+
+Lemma idx_from_pwrite : forall e c1 w old, is_prefix w e ->
+  (old = Some c1 \/ c1 = []) -> idx_from e old (pwrite c1 0 w).
+Proof.
+  intros e c1 w old [u Hu] Hold i b Hn. rewrite pwrite_le in Hn by lia. cbn [firstn app Nat.add] in Hn.
+  destruct (lt_dec i (length w)) as [L|L].
+  - left. rewrite nth_error_app1 in Hn by exact L. rewrite Hu, nth_error_app1 by exact L. exact Hn.
+  - rewrite nth_error_app2 in Hn by lia. rewrite nth_error_skipn_add in Hn.
+    replace (length w + (i - length w))%nat with i in Hn by lia.
+    destruct Hold as [->| ->]; [right; exists c1; auto|destruct i; discriminate].
+Qed.
+
+Section C12b.
+Variable H : bytes -> bytes.
+Variable U : bytes -> Prop.
+Hypothesis H_len : forall x, length (H x) = hash_size_n.
+Hypothesis H_inj : H_inj_on H U.
+
+(* a byte at position i of the index file of id is explained by a content that is complete in
+   the store: it is the byte at position i of a well-formed entry naming that content *)
+Definition covered (fs : files) (id c : bytes) : Prop :=
+  forall i b, nth_error c i = Some b ->
+    exists d tm, U d /\ fs (DatP (H d)) = Some d /\
+                 nth_error (encode_entry id (H d) (Z.of_nat (length d)) tm) i = Some b.
+
+Definition I2b (fs : files) : Prop := forall id c, fs (IdxP id) = Some c -> covered fs id c.
+Definition InvB (fs : files) : Prop := I1 H U fs /\ I2b fs.
+
+Lemma invb_init : InvB no_files.
+Proof. split; intros ? ? ; discriminate. Qed.
+
+Definition put_post_b (id d : bytes) (tm : Z) (fs fs' : files) : Prop :=
+  let e := encode_entry id (H d) (Z.of_nat (length d)) tm in
+  (forall q, q <> DatP (H d) -> q <> IdxP id -> fs' q = fs q) /\
+  data_ok d (fs' (DatP (H d))) /\
+  (fs (DatP (H d)) = Some d -> fs' (DatP (H d)) = Some d) /\
+  (fs' (IdxP id) = fs (IdxP id) \/ fs' (IdxP id) = None \/
+   exists c, fs' (IdxP id) = Some c /\ fs' (DatP (H d)) = Some d /\ idx_from e (fs (IdxP id)) c).
+
+Lemma post_b_inv : forall fs fs' id d tm, U d -> InvB fs -> put_post_b id d tm fs fs' -> InvB fs'.
+Proof.
+  intros fs fs' id d tm Ud [Hi1 Hi2] (Hfr & Hd & Hkeep & Hidx).
+  assert (forall d0, U d0 -> fs (DatP (H d0)) = Some d0 -> fs' (DatP (H d0)) = Some d0) as Hc.
+  { intros d0 Ud0 Hf. destruct (bytes_eqb (H d0) (H d)) eqn:E.
+    - apply bytes_eqb_eq in E. assert (d0 = d) by (apply H_inj; assumption). subst d0. apply Hkeep. exact Hf.
+    - apply bytes_eqb_neq in E. rewrite Hfr; [exact Hf| |discriminate]. intros Eq; inversion Eq; congruence. }
+  assert (forall id' c, covered fs id' c -> covered fs' id' c) as Hcov.
+  { intros id' c Hcv i b Hn. destruct (Hcv i b Hn) as (d0 & t0 & Ud0 & Hf & He).
+    exists d0, t0. split; [exact Ud0|]. split; [apply Hc; assumption|exact He]. }
+  split.
+  - intros out c Ec. destruct (bytes_eqb out (H d)) eqn:E.
+    + apply bytes_eqb_eq in E. subst out. destruct Hd as [Hn|(c' & Hs & Hp)]; [congruence|].
+      exists d. split; [exact Ud|]. split; [reflexivity|]. congruence.
+    + apply bytes_eqb_neq in E. rewrite Hfr in Ec; [exact (Hi1 _ _ Ec)| |discriminate].
+      intros Eq; inversion Eq; congruence.
+  - intros id' c Ec. destruct (bytes_eqb id' id) eqn:E.
+    + apply bytes_eqb_eq in E. subst id'. destruct Hidx as [Hsame|[Hnone|(c' & Hs & Hf & Hfrom)]].
+      * rewrite Hsame in Ec. apply Hcov. apply Hi2. exact Ec.
+      * congruence.
+      * rewrite Hs in Ec. inversion Ec; subst c'. intros i b Hn.
+        destruct (Hfrom i b Hn) as [He|(c0 & Hc0 & Hn0)].
+        -- exists d, tm. auto.
+        -- apply (Hcov id c0 (Hi2 _ _ Hc0) i b Hn0).
+    + apply bytes_eqb_neq in E. rewrite Hfr in Ec; [|discriminate|intros Eq; inversion Eq; congruence].
+      apply Hcov. apply Hi2. exact Ec.
+Qed.
+
+Theorem put_faulty_post_b_honest : forall chunks fs id tm b,
+  let d := concat chunks in
+  data_ok d (fs (DatP (H d))) ->
+  put_post_b id d tm fs (fst (fst (run_f b (put_prog H id (honest_reader chunks) tm) fs))).
+Proof.
+  intros chunks fs id tm b d Hdata.
+  unfold put_prog. cbn [honest_reader rd_seek1 rd_ok1 rd_pass1 negb orb]. fold d.
+  set (pd := DatP (H d)). set (pi := IdxP id).
+  set (Fi := fun ok2 : bool => Ret (if ok2 then PutOk (H d) (length d) else PutFailed (H d) (length d))).
+  set (Fc := fun ok : bool => if ok then bind (put_index_prog id (H d) (length d) tm) Fi else Ret (PutFailed (H d) (length d))).
+  apply (run_f_sound _ (fun x => put_post_b id d tm fs (fst x)) (fun _ => True)); [|auto].
+  apply (copy_points H (put_post_b id d tm fs) (fun _ => True) chunks fs Fc).
+  - intros fs' Ha Hd Hk. split; [|split; [exact Hd|split; [exact Hk|]]].
+    + intros q N1 N2. apply Ha. exact N1.
+    + left. apply Ha. discriminate.
+  - intros fsx Ha Hx. unfold Fc.
+    set (e := encode_entry id (H d) (Z.of_nat (length d)) tm).
+    apply (index_points (put_post_b id d tm fs) (fun _ => True) id (H d) (length d) tm fsx
+             (fun x => x = fsx pi \/ x = None \/ exists c, x = Some c /\ idx_from e (fsx pi) c)).
+    + intros fs' Ha' HQ. split; [|split; [|split]].
+      * intros q N1 N2. rewrite Ha' by exact N2. apply Ha. exact N1.
+      * right. exists d. split; [|apply prefix_refl]. rewrite Ha' by discriminate. exact Hx.
+      * intros _. rewrite Ha' by discriminate. exact Hx.
+      * assert (fsx pi = fs pi) as Epi by (apply Ha; discriminate).
+        destruct HQ as [HQ|[HQ|(c & HQ & Hfrom)]].
+        -- left. rewrite HQ. exact Epi.
+        -- right. left. exact HQ.
+        -- right. right. exists c. split; [exact HQ|]. split; [rewrite Ha' by discriminate; exact Hx|].
+           fold pi. rewrite <- Epi. exact Hfrom.
+    + left; reflexivity.
+    + right; left; reflexivity.
+    + fold pi. destruct (fsx pi) as [c0|]; [left; reflexivity|]. right. right. exists []. split; [reflexivity|].
+      intros i x Hn. destruct i; discriminate.
+    + right. right. eexists. split; [reflexivity|]. fold pi. fold e.
+      apply idx_from_pwrite; [apply prefix_refl|]. destruct (fsx pi); [left; reflexivity|right; reflexivity].
+    + right. right. eexists. split; [reflexivity|]. intros i x Hn. left. exact Hn.
+    + intros j _. right. right. eexists. split; [reflexivity|]. fold pi. fold e.
+      apply idx_from_pwrite; [apply firstn_prefix|]. destruct (fsx pi); [left; reflexivity|right; reflexivity].
+    + destruct (encode_entry_prefix id (H d) (Z.of_nat (length d)) tm) as [X EX]. rewrite EX. discriminate.
+    + intros ok. eexists. reflexivity.
+  - eexists. reflexivity.
+  - exact Hdata.
+Qed.
+
+Theorem put_seq_post_b : forall rd fs id tm,
+  let d := rd_pass1 rd in
+  reader_no_collision H rd -> data_ok d (fs (DatP (H d))) ->
+  put_post_b id d tm fs (fst (put H fs id rd tm)).
+Proof.
+  intros rd fs id tm d Hcol Hdata. unfold put, put_prog.
+  assert (put_post_b id d tm fs fs) as Psame.
+  { split; [auto|]. split; [exact Hdata|]. split; [auto|]. left; reflexivity. }
+  destruct (negb (rd_seek1 rd) || negb (rd_ok1 rd)); [exact Psame|]. fold d.
+  rewrite run_seq_bind.
+  destruct (seq_copy_file_any H rd fs Hcol Hdata) as (fs1 & r & E1 & Ha1 & Hr). fold d in E1, Ha1, Hr. rewrite E1.
+  destruct Hr as [[-> Hd1]|(-> & Hd1 & Hinc)].
+  - rewrite run_seq_bind. destruct (seq_put_index fs1 id (H d) (length d) tm) as (fs2 & E2 & Hi2 & Ha2).
+    rewrite E2. cbn [run_seq fst]. split; [|split; [|split]].
+    + intros q N1 N2. rewrite Ha2 by exact N2. apply Ha1. exact N1.
+    + right. exists d. split; [|apply prefix_refl]. rewrite Ha2 by discriminate. exact Hd1.
+    + intros _. rewrite Ha2 by discriminate. exact Hd1.
+    + right. right. eexists. split; [exact Hi2|]. split; [rewrite Ha2 by discriminate; exact Hd1|].
+      intros i b Hn. left. exact Hn.
+  - cbn [run_seq fst]. split; [|split; [|split]].
+    + intros q N1 N2. apply Ha1. exact N1.
+    + right. exists []. split; [exact Hd1|apply prefix_nil].
+    + intros E; contradiction.
+    + left. apply Ha1. discriminate.
+Qed.
+
+(* both regimes: the source is well-behaved and one file operation faults in any of the five
+   ways, or the source misbehaves and no operation faults *)
+Definition one_fault_b (b : budget) (rd : reader) : Prop :=
+  honest rd \/ (b = None /\ reader_no_collision H rd).
+
+Theorem invb_put_faulty : forall fs id rd tm b,
+  InvB fs -> U (rd_pass1 rd) -> one_fault_b b rd ->
+  InvB (fst (fst (run_f b (put_prog H id rd tm) fs))).
+Proof.
+  intros fs id rd tm b Hinv Ud Hone.
+  assert (data_ok (rd_pass1 rd) (fs (DatP (H (rd_pass1 rd))))) as Hdata
+    by (apply (inv_data_ok H U); [exact H_inj|exact Ud|apply Hinv]).
+  eapply (post_b_inv fs _ id (rd_pass1 rd) tm Ud Hinv).
+  destruct Hone as [Hh|[-> Hc]].
+  - rewrite (honest_is_honest_reader rd Hh) at 2.
+    assert (rd_pass1 rd = concat (rd_pass2 rd)) as E by (destruct Hh as (_ & _ & _ & E); auto).
+    rewrite E in *. apply put_faulty_post_b_honest. exact Hdata.
+  - rewrite run_f_none. cbn [fst]. apply put_seq_post_b; assumption.
+Qed.
+
+End C12b.
+
+(* ---- hybrids: from InvB to Inv *)
+Lemma nth_error_entry_out : forall (b0 b1 b2 s1 : byte) hid hout X k,
+  length hid = hex_size_n -> (k < length hout)%nat ->
+  nth_error (b0 :: b1 :: b2 :: hid ++ s1 :: hout ++ X) (3 + hex_size_n + 1 + k) = nth_error hout k.
+Proof.
+  intros b0 b1 b2 s1 hid hout X k Lh Lk.
+  change (3 + hex_size_n + 1 + k)%nat with (S (S (S (hex_size_n + 1 + k)))). cbn [nth_error].
+  rewrite nth_error_app2 by lia. replace (hex_size_n + 1 + k - length hid)%nat with (S k) by lia.
+  cbn [nth_error]. apply nth_error_app1. exact Lk.
+Qed.
+
+Section Hybrid.
+Variable H : bytes -> bytes.
+Variable U : bytes -> Prop.
+Hypothesis H_len : forall x, length (H x) = hash_size_n.
+
+(* no string that is, position by position, made of the hex digits of hashes of contents of a
+   set S (within U) decodes to the hash of a content of U outside S *)
+Definition no_hybrid : Prop :=
+  forall (S : bytes -> Prop) s d0, U d0 -> hex_decode s = Some (H d0) ->
+    (forall k b, nth_error s k = Some b -> exists d, U d /\ S d /\ nth_error (hex (H d)) k = Some b) ->
+    S d0.
+
+Lemma covered_parse_complete : forall fs id c out size tm,
+  no_hybrid -> covered H U fs id c -> parse_entry c id = Some (out, size, tm) ->
+  forall d0, U d0 -> H d0 = out -> fs (DatP out) = Some d0.
+Proof.
+  intros fs id c out size tm Hnh Hcov Ep d0 Ud0 Hh.
+  destruct (parse_entry_strict _ _ _ _ _ Ep) as (_ & hid & hout & ss & st & Es & Lh & Lo & _ & _ & Hi & Ho & _).
+  assert (length id = hash_size_n) as Li.
+  { apply hex_decode_length in Hi. pose proof hex_size_hash. lia. }
+  subst out. apply (Hnh (fun d => fs (DatP (H d)) = Some d) hout d0 Ud0 Ho).
+  intros k b Hn.
+  assert (k < length hout)%nat as Lk by (apply nth_error_Some; congruence).
+  assert (nth_error c (3 + hex_size_n + 1 + k) = Some b) as Hc.
+  { rewrite Es. unfold entry_shape. rewrite nth_error_entry_out by assumption. exact Hn. }
+  destruct (Hcov _ _ Hc) as (d & t & Ud & Hf & He).
+  exists d. split; [exact Ud|]. split; [exact Hf|].
+  destruct (encode_entry_prefix id (H d) (Z.of_nat (length d)) t) as [X EX]. rewrite EX in He.
+  rewrite nth_error_entry_out in He; [exact He| |].
+  - rewrite hex_length, Li. symmetry; apply hex_size_hash.
+  - rewrite hex_length, H_len. pose proof hex_size_hash. lia.
+Qed.
+
+Theorem invb_inv : forall fs, no_hybrid -> InvB H U fs -> Inv H U fs.
+Proof.
+  intros fs Hnh [Hi1 Hi2]. split; [exact Hi1|].
+  intros id c out size tm Ec Ep d0 Ud0 Hh.
+  eapply covered_parse_complete; try eassumption. apply Hi2. exact Ec.
+Qed.
+
+End Hybrid.
